@@ -1,10 +1,17 @@
 // ---- prelude/enc_spec.rs : ISA-level encoding specification (DESIGN §3), written from the LC-3 ISA, not the code
 spec fn rn(r: Register) -> u16 { r as u16 }
 
-/// PC-relative field: d = label_line - line - 1 as a mathematical integer
-/// (statement numbers are 1-based, address = origin + line - 1, so d = target - (address + 1)).
+/// PC-relative field. Statement numbers are 1-based and address = origin + line - 1 (mod 2^16), so
+/// target - (address + 1) = label_line - line - 1 (mod 2^16). Addresses wrap, hence the distance is that value
+/// taken modulo 2^16 as a signed 16-bit quantity; it must fit the signed field, and is stored truncated to it.
+#[verifier::opaque]
+spec fn dist16(label_line: u16, line: u16) -> int {
+    let m = (label_line as int - line as int - 1) % 0x10000;
+    if m >= 0x8000 { m - 0x10000 } else { m }
+}
+#[verifier::opaque]
 spec fn pcoff_spec(label_line: u16, line: u16, bits: int) -> Option<u16> {
-    let d = label_line as int - line as int - 1;
+    let d = dist16(label_line, line);
     if -p2(bits - 1) <= d < p2(bits - 1) {
         Some((if d >= 0 { d } else { d + p2(bits) }) as u16)
     } else {
